@@ -8,6 +8,9 @@ from pathlib import Path
 VERIF = Path(__file__).resolve().parent.parent
 
 # id -> (technique, level text, level note, design ref)
+TB = ("Trusted: Lean 4.33 kernel (leanchecker re-check in the thorough tier), axioms propext/Classical.choice/Quot.sound only "
+      "(audited per theorem on every run), tools/extract.py, the sampling correspondence model<->code of each run. ")
+
 CLAIMED: dict[str, tuple[str, str, str, str]] = {
     "C03": (
         "Lean 4 theorems about the version-key model + differential correspondence (model vs poetry-core vs packaging)",
@@ -16,9 +19,81 @@ CLAIMED: dict[str, tuple[str, str, str, str]] = {
         "a strict total order with 1.0 == 1.0.0, dev < pre < final < post, and that equal versions have equal keys (hash "
         "coherence); the model is tied to the code on every run by regenerating the phase tables from source and by a "
         "differential run of parse/normalise/compare against the real code and against packaging.",
-        "Trusted: Lean kernel, axioms propext/Classical.choice/Quot.sound, tools/extract.py, the sampling correspondence; "
-        "Python re/int/str primitives are modelled (hand recogniser of VERSION_PATTERN), ASCII only in theorems.",
+        TB + "Python re/int/str primitives are modelled (hand recogniser of VERSION_PATTERN), ASCII only in theorems.",
         "DESIGN.md §4 C03",
+    ),
+    "C04": (
+        "Lean 4 theorems: parsed constraint membership = formalised packaging specifier semantics, per operator + differential correspondence (model vs code, spec vs packaging)",
+        "Machine-checked proof that, for every operator of the property and every well-formed literal/candidate, membership in the "
+        "model of the parsed constraint equals the formalised reference semantics (Spec/Specifier.lean, the range-based "
+        "packaging 26 algorithm) on candidates that are regular for the literal (other release, or equal), incl. the exclusive "
+        "comparison rules, wildcards, two-clause sets, and the documented ranges of ^, ~, bare versions and ||. Partial: sets of "
+        "more than two clauses, ~=V on V's own release and !=V.* are stated (`*_full_statement`) and covered by the correspondence "
+        "only. Every run compares model vs real parse_constraint().allows() and spec vs packaging on ~200k pairs.",
+        TB + "Reference = packaging 26.3 in a subprocess. Three in-guard divergence classes are known findings (by design of the range algebra).",
+        "DESIGN.md §4 C04",
+    ),
+    "C05": (
+        "Lean 4 theorems: exactness of range/version intersect, union, difference and of the union merge walks w.r.t. interval semantics on regular probes + structural differential correspondence",
+        "Machine-checked proof, over a linear-order instance of the version key, that `allows` of the real algorithm is plain "
+        "interval membership on regular probes and that member-level intersect, union (single-result case), difference, "
+        "`VersionUnion.of` (membership preservation) and the intersect merge walk are defined and exact; empty/universal laws; "
+        "commutativity. Partial (named `_partial`, full statements kept as `def …_full_statement`): union/difference need `Tidy` "
+        "operands, the difference merge walks are covered by correspondence only. The model mirrors the code branch by branch and "
+        "is compared structurally (text, dump, flags, membership on regular AND irregular probes) on every run.",
+        TB + "list.sort modelled as stable insertion sort; one known finding (Version ∩ range with local lower bound) proved as a counterexample theorem.",
+        "DESIGN.md §4 C05",
+    ),
+    "C09": (
+        "Lean 4 theorems about a white-box selection model (glob/fnmatch, find_files_to_add, is_excluded, sdist additions) + differential correspondence with real sdist/wheel builds",
+        "Machine-checked proof, for all file trees and include/exclude tables, that no selected file is excluded or VCS-ignored unless "
+        "an include for that format names it, that bytecode caches are never selected (same caveat), that explicit includes are present, "
+        "that the sdist has the NAME-VERSION/ layout with pyproject.toml, PKG-INFO, readmes and legal files, that PKG-INFO and METADATA "
+        "come from one renderer, and that the wheel selected from the unpacked sdist equals the wheel selected from the tree under named "
+        "hypotheses (the unrestricted statement is proved FALSE on two witnesses, both reproduced on the real builders). Each run builds "
+        "real sdists/wheels (incl. wheel-from-unpacked-sdist, git work trees) and compares member lists with the model.",
+        TB + "tar/zip/gzip encoders, pathlib.glob (tied by 20k fnmatch + 5k glob cases in thorough), git are trusted; symlinks and '..' patterns outside the model. Four known findings (by-design asymmetries), two defects fixed.",
+        "DESIGN.md §4 C09",
+    ),
+    "C12": (
+        "Lean 4 theorems: soundness of allows_all / allows_any / is_empty / is_any on the constraint model + structural differential correspondence",
+        "Machine-checked proof that a 'yes' of allows_all and a 'no' of allows_any are never wrong on regular probes (member level and "
+        "union level incl. the two merge walks), that allows_any agrees with non-emptiness of the intersection for inhabited members, "
+        "that empty/universal constraints admit nothing/everything and that every well-formed member allows all (and, if inhabited, any) of "
+        "itself. The uninhabited-range case is a proved counterexample. Same correspondence stream as C05 with the predicates as columns.",
+        TB + "As C05.",
+        "DESIGN.md §4 C12",
+    ),
+    "C15": (
+        "Lean 4 theorems: bumps are strictly greater finals, ^/~/~= ranges admit V and reject the upper bound and its pre-releases, token-level text round trip + differential correspondence",
+        "Machine-checked proof for every well-formed version V (any precision, epoch, pre/post/dev) that next major/minor/patch/breaking "
+        "are final and strictly greater, that ^V, ~V, ~=V parse to the documented ranges, admit V, reject their upper bound and every "
+        "pre-release of it, that ~=V has the PEP 440 compatible-release upper bound, and that the text of a single version/range "
+        "re-parses (token level) to the same range. Partial: the string-level round trip for unions/wildcards is stated "
+        "(`text_roundtrip_full_statement`) and covered by the correspondence (every algebra result re-printed, re-parsed, probed).",
+        TB + "As C05; wildcard printing mirrored incl. the epoch fix.",
+        "DESIGN.md §4 C15",
+    ),
+    "C16": (
+        "Lean 4 theorems: exactness of intersect/union/invert and soundness of allows_all/allows_any/is_any/is_empty for string constraints over arbitrary strings + structural differential correspondence (exhaustive small universe in thorough)",
+        "Machine-checked proof, for all constraints produced by parser and algebra (explicit decidable well-formedness, proved preserved) "
+        "over ARBITRARY string values, that intersection and union are defined and exact, inversion is exact where provided, the "
+        "containment/overlap answers are never wrong, universal/empty reports are sound; the same for the multi-valued `extra` variant "
+        "over sets of active extras. The model mirrors constraints/generic/*.py branch by branch (incl. in/not in atoms) and is compared "
+        "with the real code on text, structure, predicates, membership vectors and error classes.",
+        TB + "C16 claims the ==/!= fragment; in/not in atoms are modelled and compared but only partly covered by theorems. Defects in the in/not-in algebra were fixed in /repo (3372536, ea09f91).",
+        "DESIGN.md §4 C16",
+    ),
+    "C20": (
+        "Lean 4 theorems over small-step models of the memo caches, per-thread recursion stacks and lazy parser slot (all schedules) + trace correspondence of the real bookkeeping through the Lean driver + fresh-process schedule/permutation oracle",
+        "Machine-checked proof that, for every schedule of atomic steps by any number of threads and every workload, the bookkeeping is "
+        "transparent: the functools.cache model returns f k for every call and stores only (k, f k); each thread's detect_recursion list "
+        "and every RecursionError outcome equal its solo run and quiescent threads have empty lists; every parse uses build(grammar); and "
+        "the result of a call after any history equals its result in a fresh process. The models are tied to the code on every run by "
+        "replaying the recorded events of the real call_args / cache / _lark objects through the model, and the property itself is "
+        "sampled by fresh-process permuted and 2-16-thread runs.",
+        TB + "Partial: purity of the cached functions w.r.t. the recursion stack at first caching and ==/hash congruence (C18) are hypotheses, shown necessary by theorems; GIL atomicity, functools.cache internals and lark thread safety are trusted; thread schedules are sampled.",
+        "DESIGN.md §4 C20",
     ),
 }
 
